@@ -77,3 +77,35 @@ AREAS.append({
         {"container": None, "name": "checked_frame_length", "theorem": "C19.generated_checked_frame_length_eq_model"},
     ],
 })
+
+# ---- C15: leaky bucket ----------------------------------------------------------------
+AREAS.append({
+    "area": "LeakyBucket",
+    "properties": ["C15"],
+    "file": "ractor/src/factory/ratelim.rs",
+    "fn_params": "(instLim clock : Nat)",
+    "fn_args": "instLim clock",
+    "doc": """
+`Instant` and `Duration` are `Nat` nanoseconds (offset from an arbitrary origin / length);
+`Duration::as_nanos` (u128) is the identity, `Duration::new(s, n) = s * 10^9 + n`,
+`Instant::saturating_duration_since` and `Duration::saturating_sub` are truncated subtraction,
+`Instant::checked_add` fails beyond the platform limit `instLim`; `Instant::now()` is the
+parameter `clock` (at most one reading per call).""",
+    "types": {"Instant": "Nat", "Duration": "Nat"},
+    "source_types": [{"name": "LeakyBucketRateLimiter"}],
+    "consts": [{"name": "MAX_LB_BALANCE"}],
+    "nondet": {"Instant::now()": ("clock", "Instant")},
+    "calls": {"Duration::new": ("({0} * 1000000000 + {1})", "Duration")},
+    "methods": [
+        {"name": "as_nanos", "on": "Duration", "lean": "{0}", "ty": "u128"},
+        {"name": "saturating_duration_since", "on": "Instant", "lean": "({0} - {1})", "ty": "Duration"},
+        {"name": "saturating_sub", "on": "Duration", "lean": "({0} - {1})", "ty": "Duration"},
+        {"name": "checked_add", "on": "Instant", "lean": "Rust.instantCheckedAdd instLim {0} {1}", "ty": "Option<Instant>"},
+    ],
+    "fns": [
+        {"container": "LeakyBucketRateLimiter", "name": "new", "theorem": "C15.generated_leaky_new_eq_model"},
+        {"container": "LeakyBucketRateLimiter", "name": "refresh", "theorem": "C15.generated_leaky_refresh_eq_model"},
+        {"container": "RateLimiter for LeakyBucketRateLimiter", "name": "check", "theorem": "C15.generated_leaky_check_eq_model"},
+        {"container": "RateLimiter for LeakyBucketRateLimiter", "name": "bump", "theorem": "C15.generated_leaky_bump_eq_model"},
+    ],
+})
